@@ -1,7 +1,7 @@
 (* C03 — scheduling preserves the iteration space.
    Only theorem statements closed by `exact`, each followed by Print Assumptions. *)
 From Snax Require Import Base.Prelude Model.C03Schedule Model.C03Yields Model.C16Matcher
-  Proofs.C03ScheduleProofs Proofs.C03CanonProofs Proofs.C03BacktrackProofs.
+  Proofs.C03ScheduleProofs Proofs.C03CanonProofs Proofs.C03BacktrackProofs Proofs.C03FuelProofs.
 From Coq Require Import Permutation.
 
 (* image s = the list, over all points x of the iteration box (lexicographic), of the tuple
@@ -89,6 +89,15 @@ Theorem C03_scheduler_image :
     Permutation (image r) (image s).
 Proof. intros m c T s idx r H Hs. apply wf_schedb_ok in H. exact (scheduler_image m c T s idx r H Hs). Qed.
 Print Assumptions C03_scheduler_image.
+
+(* Fuel: the executable search is defined on fuel; beyond the measure (schedule dims + bounded template dims)
+   the fuel is irrelevant, so [backtrack] (which picks ndims + tdims + 2) never stops for lack of fuel and the
+   theorems above cover the complete list of results. *)
+Theorem C03_backtrack_fuel :
+  forall matcher checks T s f, wf_schedb s = true -> s <> [] -> (bt_fuel T s <= f)%nat ->
+    bt matcher checks f T s 1 = backtrack matcher checks T s.
+Proof. intros m c T s f H Hne Hf. apply wf_schedb_ok in H. exact (backtrack_fuel_enough m c T s f H Hne Hf). Qed.
+Print Assumptions C03_backtrack_fuel.
 
 (* The guard of the search establishes the divisibility precondition of tile_dim. *)
 Theorem C03_backtrack_tiles_only_divisible :
